@@ -134,7 +134,13 @@ def path_conditions(fn: ast.AST, target: ast.AST, subst_at=None, terminals=("con
                         conds.extend(a)
                 if st is target:
                     return True
-                return descend(st)
+                found = descend(st)
+                if not found:
+                    # the target is an expression inside a simple statement: the branches of conditional expressions and the right
+                    # operands of and / or it sits in are evaluated under their tests (the same conditions an if statement would give)
+                    expr_conditions(st)
+                    return True
+                return found
             if isinstance(st, ast.If):
                 t_body, t_else = terminal(st.body), terminal(st.orelse)
                 if t_body not in terminals:
@@ -147,7 +153,47 @@ def path_conditions(fn: ast.AST, target: ast.AST, subst_at=None, terminals=("con
                     pre.append((st.test, True, st))
         return False
 
+    def expr_conditions(st):
+        def walk(e):
+            if e is target:
+                return True
+            if isinstance(e, ast.IfExp):
+                if _contains(e.test, target):
+                    return walk(e.test)
+                for branch, pol in ((e.body, True), (e.orelse, False)):
+                    if branch is target or _contains(branch, target):
+                        a = atoms(e.test, pol, sub_for(st))
+                        if a is None:
+                            opaque.append(("" if pol else "not ") + norm(e.test))
+                        else:
+                            conds.extend(a)
+                        return walk(branch)
+                return False
+            if isinstance(e, ast.BoolOp):
+                for i, v in enumerate(e.values):
+                    if v is target or _contains(v, target):
+                        for prev in e.values[:i]:
+                            pol = isinstance(e.op, ast.And)
+                            a = atoms(prev, pol, sub_for(st))
+                            if a is None:
+                                opaque.append(("" if pol else "not ") + norm(prev))
+                            else:
+                                conds.extend(a)
+                        return walk(v)
+                return False
+            for ch in ast.iter_child_nodes(e):
+                if ch is target or _contains(ch, target):
+                    return walk(ch)
+            return False
+
+        if isinstance(st, ast.stmt) and not isinstance(st, (ast.If, ast.For, ast.While, ast.With, ast.Try, ast.FunctionDef, ast.AsyncFunctionDef, ast.ClassDef)):
+            walk(st)
+        elif isinstance(st, (ast.If, ast.While)) and _contains(st.test, target):
+            walk(st.test)
+
     def descend(st) -> bool:
+        if isinstance(st, (ast.If, ast.While)) and _contains(st.test, target):
+            return False
         if isinstance(st, ast.If):
             if any(s is target or _contains(s, target) for s in st.body):
                 a = atoms(st.test, True, sub_for(st))
